@@ -357,6 +357,32 @@ def _inside(node, types) -> bool:
     return False
 
 
+def _inside_raw_attrpath(node) -> bool:
+    """Inside the attrpath of a select / has-attr expression or of an inherit list (kept raw by nima)."""
+    n = node
+    while n is not None:
+        if n.type == "attrpath" and n.parent is not None and n.parent.type in ("select_expression", "has_attr_expression"):
+            return True
+        n = n.parent
+    return False
+
+
+def _plain_binding_attrpath_gap(a, b) -> bool:
+    """Gap between a segment and a dot of the attrpath of a *binding* (`a . b = 1`), outside any `${}`:
+    nima re-splits that text and normalises the spacing, unlike select / has-attr paths which stay raw."""
+    if a is None or b is None:
+        return False
+    pa, pb = a.parent, b.parent
+    if a.type in ('"',):
+        pa = pa.parent if pa is not None else None
+    if b.type in ('"',):
+        pb = pb.parent if pb is not None else None
+    for p in (pa, pb):
+        if p is None or p.type != "attrpath" or p.parent is None or p.parent.type != "binding":
+            return False
+    return pa.id == pb.id
+
+
 def _construct_id(node) -> int:
     """Identity of the construct instance a gap belongs to; operator / application chains (nested nodes of the
     same kind, which formatters lay out as one unit) count as one construct."""
@@ -474,9 +500,17 @@ def code_gaps(tree_or_text):
                     needs,
                     (prev is not None and _string_ancestor_via_interp(prev))
                     or (n is not None and _string_ancestor_via_interp(n)),
-                    (prev is not None and n is not None and _inside(prev, ("attrpath",)) and _inside(n, ("attrpath",)))
-                    or (prev is not None and _inside_attrpath_interp(prev))
-                    or (n is not None and _inside_attrpath_interp(n)),
+                    (
+                        (prev is not None and n is not None and _inside(prev, ("attrpath",)) and _inside(n, ("attrpath",)))
+                        or (prev is not None and _inside_attrpath_interp(prev))
+                        or (n is not None and _inside_attrpath_interp(n))
+                    )
+                    and not (
+                        _plain_binding_attrpath_gap(prev, n)
+                        and not _inside_attrpath_interp(prev)
+                        and not _inside_attrpath_interp(n)
+                        and not _inside_raw_attrpath(prev)
+                    ),
                     _construct_id(_lca(prev, n)) if prev is not None and n is not None else 0,
                 )
             )
